@@ -423,3 +423,308 @@ Proof.
   cbv zeta. repeat split; try (eexists; vm_compute; reflexivity); vm_compute; reflexivity.
 Qed.
 Print Assumptions where_reference_pinned_refuted.
+
+(* ==================================================================================================
+   Type safety beyond the core language (task T1): every scalar function body, IN over list-valued
+   functions, the batch evaluator, and the lift to a whole SELECT run.
+
+   Vocabulary (Proofs/TypeSafety2Proofs.v, Proofs/TypeSafetyVecProofs.v, Proofs/TypeSafetyStmtProofs.v):
+     core2 e          the language covered: every operator incl. ~= (under a premise on the oracle),
+                      every scalar function of the table except json(), IN over explicit lists and
+                      over list-valued calls / field references; no field access (dynamically
+                      typed, excepted by the property), list literals only to the right of IN /
+                      BETWEEN (the parser builds them nowhere else)
+     params_static e  the documented parameter types (start / end of substr : Number, separator of
+                      split / join : String, len : not Boolean / json, distance functions : list):
+                      the checker does NOT test them (the function bodies do, at execution), so
+                      this is a premise that cannot be discharged from Check
+     counts_ok e      argument counts of the function table: discharged from check_calls
+     wt e             the operator tests of Check at every node: discharged from Check
+     node_ok e        = wt && core2 && params_static && counts_ok
+     defs_ok P e      P holds for every definition carried by a field reference inside e, at any
+                      nesting depth (a reference carries a copy of the field it names)
+     in_kinds e       (batch mode only) where IN stands over a list-valued call / reference, the
+                      element kind of the list (split: strings; list int_list ilist float_list
+                      flist: numbers) is the kind of the left operand; node_okv = node_ok && in_kinds
+     sites2 e         the data-dependent failures of e by class and position ([fsites]: with kind):
+                      division by zero (ExecuteError at the divisor), BETWEEN with crossed bounds
+                      (ExecuteError at the BETWEEN), a distance function (plain error: an element
+                      of a list of strings that does not parse as a float, lists of different
+                      length), ~= (plain error: the pattern does not compile)
+     vty2 v t         value v has the static type t (TList: []string / []int64 / []float64; no
+                      value has type json / unknown)
+     dyn_ok2          row evaluation: a value of the static type, or an error of sites2; no panic
+     dyn_ok_vec       batch evaluation of a chunk: a FULL column of values of the static type, or an
+                      error of sites2; no panic
+   Which failures of a function body are data-dependent and which are operand-type errors is
+   spelled out function by function at the head of Proofs/TypeSafety2Proofs.v.
+   ================================================================================================== *)
+From KV Require Import Model.EvalVec Model.ScanProj Proofs.TypeSafety2Proofs Proofs.TypeSafetyVecProofs
+                       Proofs.TypeSafetyStmtProofs Proofs.TypeSafetyRefsProofs.
+
+(* Row evaluator, the whole scalar language except json() and field access: for every float
+   interface (no float law), every regexp oracle that answers with a verdict or a plain error,
+   every CheckCtx and every pair: evaluating an accepted tree yields a value of its static type or
+   a data-dependent failure of the tree -- never an operand-type error, never a panic.
+   _partial, exactly: (a) params_static is a premise (the checker does not test function parameter
+   types: `select substr(key, 'a', 1)` is accepted and fails at the first row); (b) json() and
+   field access are outside core2 (dynamically typed: the property's exception); (c) the premises
+   on the definitions carried by field references (defs_ok) are discharged at statement level
+   from build_check (accepted_statement_defs_from_checker: fields may refer to fields defined
+   before or after them, to any depth). *)
+Theorem no_dynamic_type_error_functions_partial :
+  forall (fo : fops) (re : bytes -> bytes -> res bool),
+  (forall p t, match re p t with Err x => x = EOther | Panic => False | _ => True end) ->
+  forall (ctx : cctx) (e e1 : expr) (a : bool) (k v : bytes),
+  check fo true ctx e = Ok e1 ->
+  check_calls a (rewrite_name (c_names ctx) e1) = Ok tt ->
+  core2 (rewrite_name (c_names ctx) e1) = true ->
+  params_static (rewrite_name (c_names ctx) e1) = true ->
+  defs_ok (node_ok fo) (rewrite_name (c_names ctx) e1) = true ->
+  dyn_ok2 fo re k v (rewrite_name (c_names ctx) e1).
+Proof. exact checked_tree_safe2. Qed.
+Print Assumptions no_dynamic_type_error_functions_partial.
+
+(* the plain errors of the distance functions on list values are data-dependent: an element of
+   a list of strings that ParseFloat refuses, or lists of different length *)
+Theorem distance_failures_are_data_dependent :
+  forall (fo : fops) (a b : value fo) (x : err),
+  vty2 fo a TList = true -> vty2 fo b TList = true ->
+  ((do l <- to_float_list fo a; do r <- to_float_list fo b; do d <- cosine_distance fo l r; Ok (@VFlt fo d)) = Err x \/
+   (do l <- to_float_list fo a; do r <- to_float_list fo b; do d <- l2_distance fo l r; Ok (@VFlt fo d)) = Err x) ->
+  (exists l, (a = VStrs l \/ b = VStrs l) /\ parse_floats fo l = Err x) \/
+  (exists l r, to_float_list fo a = Ok l /\ to_float_list fo b = Ok r /\ List.length l <> List.length r).
+Proof. exact distance_failures_data_dependent. Qed.
+Print Assumptions distance_failures_are_data_dependent.
+
+Theorem where_clause_safe_functions_partial :
+  forall (fo : fops) (re : bytes -> bytes -> res bool) (k v : bytes) (e : expr),
+  rtype e = TBool -> dyn_ok2 fo re k v e ->
+  match filter_row fo re k v e with
+  | Ok _ => True
+  | Err x => In x (sites2 e)
+  | Panic => False
+  | OutOfModel => True
+  end.
+Proof. exact filter_row_safe2. Qed.
+Print Assumptions where_clause_safe_functions_partial.
+
+(* Batch evaluator (Model/EvalVec.v, ExecuteBatch), every chunk: a full column of values of the
+   static type, or a data-dependent failure of the tree (batch & | and or evaluate both sides for
+   the whole chunk: the failure may come from the side row mode skips); never an operand-type
+   error, never a panic.  _partial: as above, plus the premise in_kinds (next theorem). *)
+Theorem no_dynamic_type_error_batch_partial :
+  forall (fo : fops) (re : bytes -> bytes -> res bool),
+  (forall p t, match re p t with Err x => x = EOther | Panic => False | _ => True end) ->
+  forall (ctx : cctx) (e e1 : expr) (a : bool) (ch : list kvpair),
+  check fo true ctx e = Ok e1 ->
+  check_calls a (rewrite_name (c_names ctx) e1) = Ok tt ->
+  core2 (rewrite_name (c_names ctx) e1) = true ->
+  params_static (rewrite_name (c_names ctx) e1) = true ->
+  in_kinds (rewrite_name (c_names ctx) e1) = true ->
+  defs_ok (node_okv fo) (rewrite_name (c_names ctx) e1) = true ->
+  dyn_ok_vec fo re ch (rewrite_name (c_names ctx) e1).
+Proof. exact checked_tree_safe_vec. Qed.
+Print Assumptions no_dynamic_type_error_batch_partial.
+
+(* The premise in_kinds cannot be dropped: `1 in split('a,b', ',')` is accepted, satisfies every
+   other premise, evaluates to false row by row (a failing comparison counts as "not a member")
+   and ends a chunk in batch mode with the comparison's plain error, which is no data-dependent
+   failure of the tree -- for every float interface, oracle and pair.  (Observed on the Go code:
+   row mode returns no row, batch mode fails with "Invalid operator = left or right parameter
+   type"; membership in list VALUES is dynamically typed, which the property excepts.) *)
+Theorem batch_in_needs_element_kind :
+  forall (fo : fops) (re : bytes -> bytes -> res bool) (k v : bytes),
+  check fo true (Cctx [] false false) in_kinds_witness = Ok in_kinds_witness /\
+  check_calls false in_kinds_witness = Ok tt /\
+  node_ok fo in_kinds_witness = true /\ in_kinds in_kinds_witness = false /\
+  eval fo re k v in_kinds_witness = Ok (VBool false) /\
+  eval_batch fo re true in_kinds_witness [(k, v)] = Err EOther /\
+  ~ In EOther (sites2 in_kinds_witness).
+Proof. exact in_kinds_needed. Qed.
+Print Assumptions batch_in_needs_element_kind.
+
+Theorem where_clause_safe_batch_partial :
+  forall (fo : fops) (re : bytes -> bytes -> res bool) (e : expr) (ch : list kvpair),
+  rtype e = TBool -> dyn_ok_vec fo re ch e ->
+  match filter_batch fo re true e ch with
+  | Ok bs => List.length bs = List.length ch
+  | Err x => In x (sites2 e)
+  | Panic => False
+  | OutOfModel => True
+  end.
+Proof. exact filter_batch_safe2. Qed.
+Print Assumptions where_clause_safe_batch_partial.
+
+(* The statement lift.  A SELECT (named fields or *, WHERE) that build_check accepts, run as the
+   scan + filter + projection plan (Model/ScanProj.v select_row / select_batch: what
+   FullScan / PrefixScan / RangeScan / MultiGet .Next / .Batch and ProjectionPlan do, over any
+   stream of slots, i.e. any store under any scan kind, missing MultiGet keys included), drained
+   row at a time and in batches of ANY size B >= 1: rows, or one of the data-dependent failures of
+   its WHERE clause and fields ([stmt_sites]) -- never an operand-type error, never "WHERE result
+   is not Boolean" (FilterExec), never "Expression result type not support" (projection), never
+   a panic (also not `x[i]` out of range in filterChunk / processProjectionBatch).  The select
+   fields may use the names of other fields, defined BEFORE OR AFTER them, to any depth, and so
+   may WHERE: the references then carry definitions resolved fewer rounds than the checked
+   fields, and the node conditions are shown to hold in them all (Proofs/TypeSafetyRefsProofs.v).
+   Full statement (not proved): every statement build_check accepts, without side premise.
+   _partial, exactly what is missing:
+     - stmt_frag: the trees are in core2 (no json(), no field access -- the property's exception --
+       and no aggregate function: GROUP BY / aggregate plans are not composed) and satisfy
+       in_kinds (needed for batch mode only, see batch_in_needs_element_kind);
+     - stmt_params_static: documented function parameter types, which the checker does not test;
+     - fields_ranked: the references between the fields are acyclic (what checkFieldCycles
+       establishes: cycle_test_gives_ranking), stmt_no_refs: the statement is a parser output;
+     - the ORDER BY / LIMIT plan nodes on top of the projection and the constant folder that
+       runs between Check and execution (C04: folding preserves values) are not composed here;
+       ORDER BY is accepted by build_check and ignored by this run. *)
+Theorem accepted_statement_type_safe_partial :
+  forall (fo : fops) (re : bytes -> bytes -> res bool),
+  (forall p t, match re p t with Err x => x = EOther | Panic => False | _ => True end) ->
+  forall (fields : list (string * expr)) (w : expr) (order : list (nat * string)) (s2 : stmt)
+         (star : bool) (slots : list (option kvpair)),
+  build_check fo true (SSelect fields w order) = Ok s2 ->
+  fields_ranked fields -> stmt_no_refs (SSelect fields w order) = true ->
+  stmt_frag s2 = true -> stmt_params_static s2 = true ->
+  match s2 with
+  | SSelect f2 w2 _ =>
+      okerr (fun x => In x (stmt_sites w2 (sel_fields star f2)))
+            (select_row fo re w2 (sel_fields star f2) slots) /\
+      forall B, 1 <= B ->
+        okerr (fun x => In x (stmt_sites w2 (sel_fields star f2)))
+              (select_batch fo re B w2 (sel_fields star f2) slots)
+  | _ => False
+  end.
+Proof. exact accepted_select_safe_ranked. Qed.
+Print Assumptions accepted_statement_type_safe_partial.
+
+(* what build_check establishes for the definitions carried by the references of the statement
+   it returns (stmt_defs: node_okv in every definition, at every nesting depth), fields that
+   refer to fields included *)
+Theorem accepted_statement_defs_from_checker :
+  forall (fo : fops) (fields : list (string * expr)) (w : expr) (order : list (nat * string)) (s2 : stmt),
+  build_check fo true (SSelect fields w order) = Ok s2 ->
+  fields_ranked fields -> stmt_no_refs (SSelect fields w order) = true ->
+  stmt_frag s2 = true -> stmt_params_static s2 = true -> stmt_defs fo s2 = true.
+Proof. exact ranked_stmt_defs. Qed.
+Print Assumptions accepted_statement_defs_from_checker.
+
+(* the same for any WHERE tree and field list that satisfy the tree premises (what the theorem
+   above instantiates) *)
+Theorem select_run_type_safe :
+  forall (fo : fops) (re : bytes -> bytes -> res bool),
+  (forall p t, match re p t with Err x => x = EOther | Panic => False | _ => True end) ->
+  forall (wh : expr) (fields : option (list expr)) (slots : list (option kvpair)),
+  rtype wh = TBool ->
+  (tree_ok fo wh -> fields_ready (tree_ok fo) fields ->
+   okerr (fun x => In x (stmt_sites wh fields)) (select_row fo re wh fields slots)) /\
+  (tree_okv fo wh -> fields_ready (tree_okv fo) fields -> forall B,
+   okerr (fun x => In x (stmt_sites wh fields)) (select_batch fo re B wh fields slots)).
+Proof. exact select_run_safe. Qed.
+Print Assumptions select_run_type_safe.
+
+(* the fuel of the drains never runs out: where a run ends OutOfModel, an evaluator call on some
+   pair / chunk ended OutOfModel (a float text or case mapping outside the twins) *)
+Theorem accepted_statement_fuel_enough :
+  forall (fo : fops) (re : bytes -> bytes -> res bool) (wh : expr) (fields : option (list expr))
+         (slots : list (option kvpair)),
+  (forall kv, filter_row fo re (fst kv) (snd kv) wh <> OutOfModel) ->
+  (forall kv, sel_prow fo re fields kv <> OutOfModel) ->
+  (forall c, filter_batch fo re true wh c <> OutOfModel) ->
+  (forall c, sel_pbatch fo re fields c <> OutOfModel) ->
+  (forall c, match filter_batch fo re true wh c with
+             | Ok bs => List.length bs = List.length c | Panic => False | _ => True end) ->
+  select_row fo re wh fields slots <> OutOfModel /\
+  forall B, 1 <= B -> select_batch fo re B wh fields slots <> OutOfModel.
+Proof. exact select_fuel_enough. Qed.
+Print Assumptions accepted_statement_fuel_enough.
+
+(* DELETE filters its scan with the WHERE clause in the same way (no field names: nothing to
+   discharge about references) *)
+Theorem accepted_delete_filter_safe_partial :
+  forall (fo : fops) (re : bytes -> bytes -> res bool),
+  (forall p t, match re p t with Err x => x = EOther | Panic => False | _ => True end) ->
+  forall (w : expr) (s2 : stmt),
+  build_check fo true (SDelete w) = Ok s2 -> no_refs w = true ->
+  stmt_frag s2 = true -> stmt_params_static s2 = true ->
+  match s2 with
+  | SDelete w2 =>
+      (forall kv, okerr (fun x => In x (sites2 w2)) (filter_row fo re (fst kv) (snd kv) w2)) /\
+      (forall c, okerr (fun x => In x (sites2 w2)) (filter_batch fo re true w2 c))
+  | _ => False
+  end.
+Proof. exact accepted_delete_filter_safe_full_premises. Qed.
+Print Assumptions accepted_delete_filter_safe_partial.
+
+(* ---------------------------------------------------------------- non-vacuity *)
+Definition t1_re : bytes -> bytes -> res bool := fun _ _ => OutOfModel.
+
+(* where len(split(value, ',')) > 1 & key in split(value, ',') & substr(upper(key), 0, 1) = 'A':
+   accepted, every premise of the row and of the batch theorem holds, and it evaluates *)
+Definition t1_ex_where : expr :=
+  EBin 60 OAnd
+    (EBin 30 OAnd
+       (EBin 28 OGt (ECall 6 (EName 6 "len") [ECall 10 (EName 10 "split") [EField 16 ValueKW; EStr 23 ","]]) (ENum 30 "1"))
+       (EBin 38 OIn (EField 34 KeyKW) (ECall 41 (EName 41 "split") [EField 47 ValueKW; EStr 54 ","])))
+    (EBin 88 OEq
+       (ECall 62 (EName 62 "substr") [ECall 69 (EName 69 "upper") [EField 75 KeyKW]; ENum 81 "0"; ENum 84 "1"])
+       (EStr 90 "A")).
+
+Example no_dynamic_type_error_functions_nonvacuous :
+  let ctx := Cctx [] false false in
+  check no_floats true ctx t1_ex_where = Ok t1_ex_where /\
+  check_calls false t1_ex_where = Ok tt /\
+  core2 t1_ex_where = true /\ params_static t1_ex_where = true /\ in_kinds t1_ex_where = true /\
+  defs_ok (node_okv no_floats) t1_ex_where = true /\ defs_ok (node_ok no_floats) t1_ex_where = true /\
+  eval no_floats t1_re "a" "a,b" t1_ex_where = Ok (VBool true) /\
+  eval_batch no_floats t1_re true t1_ex_where [("a", "a,b"); ("b", "x")] = Ok [VBool true; VBool false].
+Proof. cbv zeta. repeat split; vm_compute; reflexivity. Qed.
+
+(* where l2_distance(int_list(1), int_list(1, 2)) > 0: accepted, the premises hold, and the run ends
+   in the data-dependent failure "lists of different length", which sites2 lists *)
+Definition t1_ex_distance : expr :=
+  EBin 50 OGt
+    (ECall 6 (EName 6 "l2_distance")
+       [ECall 18 (EName 18 "int_list") [ENum 27 "1"]; ECall 31 (EName 31 "int_list") [ENum 40 "1"; ENum 43 "2"]])
+    (ENum 52 "0").
+
+Example data_dependent_failure_nonvacuous :
+  check no_floats true (Cctx [] false false) t1_ex_distance = Ok t1_ex_distance /\
+  node_okv no_floats t1_ex_distance = true /\
+  eval no_floats t1_re "a" "1" t1_ex_distance = Err EOther /\
+  eval_batch no_floats t1_re true t1_ex_distance [("a", "1")] = Err EOther /\
+  In EOther (sites2 t1_ex_distance).
+Proof. repeat split; try (vm_compute; reflexivity). cbn. left. reflexivity. Qed.
+
+(* select key, n + 1 as m, int(value) as n, split(value, ',') as s where m in list(2, 13) & len(s) >= 1:
+   m uses n before n is defined, WHERE uses m (two references deep) and s.  Accepted; the premises
+   of accepted_statement_type_safe_partial hold; the run over the slots a=12, (a missing key),
+   b=7, c=1 returns the same two rows row by row and in batches of two *)
+Definition t1_ex_fields : list (string * expr) :=
+  [("KEY", EField 7 KeyKW);
+   ("m", EBin 14 OAdd (EName 12 "n") (ENum 16 "1"));
+   ("n", ECall 24 (EName 24 "int") [EField 28 ValueKW]);
+   ("s", ECall 41 (EName 41 "split") [EField 47 ValueKW; EStr 54 ","])].
+Definition t1_ex_stmt_where : expr :=
+  EBin 88 OAnd
+    (EBin 72 OIn (EName 70 "m") (ECall 75 (EName 75 "list") [ENum 80 "2"; ENum 83 "13"]))
+    (EBin 97 OGte (ECall 90 (EName 90 "len") [EName 94 "s"]) (ENum 100 "1")).
+Definition t1_ex_stmt : stmt := SSelect t1_ex_fields t1_ex_stmt_where [].
+Definition t1_ex_slots : list (option kvpair) := [Some ("a", "12"); None; Some ("b", "7"); Some ("c", "1")].
+
+Example accepted_statement_type_safe_nonvacuous :
+  exists f2 w2,
+    build_check no_floats true t1_ex_stmt = Ok (SSelect f2 w2 []) /\
+    fields_ranked t1_ex_fields /\ ~ fields_plain t1_ex_fields /\ stmt_no_refs t1_ex_stmt = true /\
+    stmt_frag (SSelect f2 w2 []) = true /\ stmt_params_static (SSelect f2 w2 []) = true /\
+    stmt_defs no_floats (SSelect f2 w2 []) = true /\
+    select_row no_floats t1_re w2 (sel_fields false f2) t1_ex_slots
+      = Ok [[VBytes "a"; VInt 13; VInt 12; VStrs ["12"]]; [VBytes "c"; VInt 2; VInt 1; VStrs ["1"]]] /\
+    select_batch no_floats t1_re 2 w2 (sel_fields false f2) t1_ex_slots
+      = Ok [[[VBytes "a"; VInt 13; VInt 12; VStrs ["12"]]; [VBytes "c"; VInt 2; VInt 1; VStrs ["1"]]]].
+Proof.
+  eexists. eexists. split; [vm_compute; reflexivity|].
+  split; [apply ranked_b_sound; vm_compute; reflexivity|].
+  split; [intros H; inversion H as [|? ? _ H2]; inversion H2 as [|? ? H3 _]; discriminate H3|].
+  repeat split; vm_compute; reflexivity.
+Qed.
